@@ -442,7 +442,7 @@ func runC05(r *core.Run) {
 		r.Cap("plain build: the concurrent range-read part needs the instrumented overlay (run through run.sh)")
 	}
 	r.Rule("bounded-exhaustive: every range 0<=a<b<=L of every file shape (w in {2,3}, chunk 3; this builder + reference writers) via Seek+ReadFull, end-relative positioning and a subset-matcher traversal; every pair of short requests [a,b) then [c,d) on one reader (second request positioned with a relative seek); every member/non-member lookup on every sharded directory of the universe subsets (cold and warm cache); every path of every small tree; oracle: requested links ⊆ blocks whose span intersects the range + ancestors / shards on the hash path / blocks on the path (independent model over stored blocks)")
-	r.Assume("file DAGs are those produced by the two writers (interior nodes carry BlockSizes)")
+	r.Assume("file DAGs: those produced by the two writers, and hand-written encodings in which every child size is recorded where the reader looks for it (BlockSizes for dag-pb children, Tsize for raw leaves; links may lack Tsize otherwise)")
 	var cases []c05Case
 	var files []fileCase
 	writers := []string{"ours", "balanced/raw=true/v1=true", "balanced/raw=false/v1=false", "trickle/raw=false/v1=true", "trickle/raw=true/v1=true"}
@@ -458,6 +458,13 @@ func runC05(r *core.Run) {
 			continue
 		}
 		cases = append(cases, c05Case{Kind: "file", File: f})
+	}
+	// hand-written encodings on which laziness can be exact (every child's size
+	// recorded where the reader looks for it), incl. links without Tsize
+	for _, h := range gen.HandFamily() {
+		if h.LazyExact() {
+			cases = append(cases, c05Case{Kind: "hand", Hand: h.Label})
+		}
 	}
 	usize := 9
 	fanouts := []int{8, 16, 256}
